@@ -239,3 +239,101 @@ Qed.
 Lemma matchChunk_parses chunk items s : Parses chunk items -> no_star items ->
   matchChunk chunk s = Ok (PM items s).
 Proof. intros HP Hn. unfold matchChunk. apply (matchChunkLoop_parses _ _ HP Hn). lia. Qed.
+
+(** ** star-free term lists: the prefix matcher decides the declarative relation *)
+Lemma PM_Matches items : no_star items -> forall s, PM items s = Some [] <-> Matches items s.
+Proof.
+  induction items as [|it items IH]; intros Hn s.
+  - simpl. split; [intros H; inversion H; constructor | intros H; inversion H; reflexivity].
+  - inversion Hn as [|? ? Hit Hn']; subst. specialize (IH Hn').
+    destruct s as [|s0 s'].
+    + simpl. split; [discriminate|]. intros H. inversion H; subst; try congruence.
+    + destruct it as [| |c|neg rs]; [congruence| | |]; cbn [PM].
+      * destruct (decodeRune (s0 :: s')) as [r n] eqn:E. cbn [snd].
+        destruct (s0 =? Separator) eqn:Es.
+        -- split; [discriminate|]. intros H. inversion H; subst. lia.
+        -- rewrite IH. split.
+           ++ intros H. eapply M_any; [lia|exact E|exact H].
+           ++ intros H. inversion H; subst. match goal with Hd : decodeRune _ = _ |- _ => rewrite E in Hd; inversion Hd; subst end. assumption.
+      * destruct (c =? s0) eqn:Ec.
+        -- assert (c = s0) by lia. subst. rewrite IH. split; [intros H; constructor; exact H|].
+           intros H; inversion H; subst; assumption.
+        -- split; [discriminate|]. intros H; inversion H; subst. lia.
+      * destruct (decodeRune (s0 :: s')) as [r n] eqn:E. cbn [fst snd].
+        destruct (Bool.eqb (in_ranges r rs) neg) eqn:Eb.
+        -- split; [discriminate|]. intros H. inversion H; subst. match goal with Hd : decodeRune _ = _ |- _ => rewrite E in Hd; inversion Hd; subst end.
+           match goal with Hi : in_ranges _ _ = _ |- _ => rewrite Hi in Eb end. destruct neg; discriminate.
+        -- rewrite IH. split.
+           ++ intros H. eapply M_class; [exact E| |exact H].
+              destruct (in_ranges r rs), neg; simpl in *; congruence.
+           ++ intros H. inversion H; subst. match goal with Hd : decodeRune _ = _ |- _ => rewrite E in Hd; inversion Hd; subst end. assumption.
+Qed.
+
+(** ** patterns without a '*' byte: one chunk *)
+Definition starless (p : bytes) : Prop := Forall (fun c => c <> ch_star) p.
+
+Lemma scan_starless p : starless p -> forall inr, scan p inr = (p, []).
+Proof.
+  induction p as [p IH] using (well_founded_induction (Wf_nat.well_founded_ltof _ (@length N))).
+  intros Hs inr. destruct p as [|c t]; [reflexivity|].
+  inversion Hs as [|? ? Hc Ht]; subst. cbn [scan].
+  destruct (c =? ch_bsl).
+  - destruct t as [|c' t']; [reflexivity|]. inversion Ht; subst.
+    rewrite (IH t') by (unfold ltof; simpl; lia || assumption). reflexivity.
+  - destruct (c =? ch_lbr); [rewrite (IH t) by (unfold ltof; simpl; lia || assumption); reflexivity|].
+    destruct (c =? ch_rbr); [rewrite (IH t) by (unfold ltof; simpl; lia || assumption); reflexivity|].
+    replace (c =? ch_star) with false by lia. cbn [andb].
+    rewrite (IH t) by (unfold ltof; simpl; lia || assumption). reflexivity.
+Qed.
+
+Lemma Parses_starless p ts : Parses p ts -> starless p -> no_star ts.
+Proof.
+  induction 1; intros Hs; try (inversion Hs; subst).
+  - constructor.
+  - congruence.
+  - constructor; [discriminate|apply IHParses; assumption].
+  - match goal with Ht : Forall _ (c :: p) |- _ => inversion Ht; subst end.
+    constructor; [discriminate|apply IHParses; assumption].
+  - constructor; [discriminate|apply IHParses; assumption].
+  - constructor; [discriminate|]. apply IHParses.
+    (* q' is a suffix of q *)
+    assert (Hsuf : forall a b, starless (a ++ b) -> starless b).
+    { intros a b Hab. unfold starless in *. rewrite Forall_app in Hab. apply Hab. }
+    assert (Hq0 : starless q0).
+    { unfold strip_caret in H. destruct q as [|c t]; [inversion H; subst; constructor|].
+      destruct (c =? ch_caret); inversion H; subst; [inversion H6; assumption|assumption]. }
+    clear - Hq0 H0 H1 Hsuf.
+    assert (Hr : forall x r y, rchar x = Some (r, y) -> starless x -> starless y).
+    { intros x r y Hr Hq. unfold rchar in Hr. destruct x as [|c t]; [discriminate|].
+      destruct ((c =? ch_dash) || (c =? ch_rbr)); [discriminate|].
+      destruct (if c =? ch_bsl then t else c :: t) as [|u w] eqn:E; [discriminate|].
+      destruct (decodeRune (u :: w)) as [r0 n]. destruct ((r0 =? RuneError) && Nat.eqb n 1); [discriminate|].
+      inversion Hr; subst. apply (Hsuf (firstn n (u :: w))). rewrite firstn_skipn.
+      destruct (c =? ch_bsl); [subst; inversion Hq; assumption|inversion E; subst; assumption]. }
+    assert (HR : forall x lo' hi' y, Range x lo' hi' y -> starless x -> starless y).
+    { intros x lo' hi' y HRg Hq. inversion HRg; subst; [eapply Hr; eassumption|].
+      match goal with Ha : rchar x = Some _ |- _ => apply Hr in Ha; [|assumption]; inversion Ha; subst end.
+      eapply Hr; eassumption. }
+    apply HR in H0; [|assumption]. clear Hq0. induction H1 as [|x lo' hi' y rs' z HRg HT IHT]; [inversion H0; assumption|].
+    apply IHT. eapply HR; eassumption.
+Qed.
+
+Lemma strip_stars_starless p : starless p -> strip_stars p = (false, p).
+Proof. intros H. destruct p as [|c t]; [reflexivity|]. inversion H; subst. simpl. replace (c =? ch_star) with false by lia. reflexivity. Qed.
+
+(** Match on a well-formed pattern without '*': answers, and answers the declarative relation, for every name *)
+Theorem Match_starless p ts s : Parses p ts -> starless p ->
+  exists b, Match p s = Ok b /\ (b = true <-> Matches ts s).
+Proof.
+  intros HP Hs. pose proof (Parses_starless _ _ HP Hs) as Hn.
+  unfold Match. destruct p as [|c t].
+  - inversion HP; subst. simpl. exists (is_nil s). split; [reflexivity|].
+    destruct s; simpl; split; intros H; try constructor; try discriminate. inversion H.
+  - cbn [MatchLoop]. unfold scanChunk. rewrite (strip_stars_starless _ Hs), (scan_starless _ Hs).
+    cbn [andb]. rewrite (matchChunk_parses _ _ s HP Hn).
+    destruct (PM ts s) as [t'|] eqn:E.
+    + destruct t' as [|x y]; cbn [is_nil orb negb].
+      * exists true. split; [reflexivity|]. split; [intros _; apply PM_Matches; assumption|reflexivity].
+      * exists false. split; [reflexivity|]. split; [discriminate|]. intros H. apply PM_Matches in H; [|assumption]. congruence.
+    + exists false. split; [reflexivity|]. split; [discriminate|]. intros H. apply PM_Matches in H; [|assumption]. congruence.
+Qed.
